@@ -234,7 +234,7 @@ func (f *feSandbox) Invoke(w http.ResponseWriter, inv *interop.Invoke) error {
 	}
 	s.Rec.Emit(fmt.Sprintf("caller:%d", caller), "InvokeRet", "caller", caller, "k", k, "payload", label, "err", e,
 		"status", status, "body", s.classify(body), "size", len(body), "durMs", time.Since(t0).Milliseconds(), "ctype", "", "fe", j,
-		"sha", sha8(body))
+		"sha", sha8(body), "reqid2", inv.ID)
 	return err
 }
 
